@@ -90,7 +90,7 @@ pub fn run(ctx: &mut Ctx) {
         let nstate = vs.global_metadata().num_states;
         let mut iw = InterporationWeight::new(nv, nstream);
         let wild = idx % 3 == 0;
-        let vertex = idx % 5 == 0;
+        let vertex = idx % 5 == 0 && idx % 6 != 1; // (idx % 6 == 1: weights stay at their defaults)
         let mk = |rng: &mut Rng| -> Vec<f64> {
             if vertex {
                 let mut w = vec![0.0; nv];
